@@ -12,12 +12,16 @@ Same generator as C10 (only 4-byte aligned payloads: DESIGN S-note). Oracle, per
     (target, offset of F's last instruction, F) has its mirrored child triple in F.
 Blocks whose last item is a payload pseudo-instruction (data, unreachable) are don't-care for the successor set; they
 still take part in the childs/fathers consistency check.
+Histories (cfg_common): a share of the cases goes on after the first analysis - the same parsed DEX object is analysed
+again ('history:reanalyse:*' buckets: the clauses must hold for the blocks of every analysis, judged by identity), or a
+try-free generated method gets another layout installed through EncodedMethod.set_instructions() and is analysed again
+('history:set-instructions:*' buckets: judged against the model of the new layout).
 """
 from vf.checks import cfg_common as K
 
 PROPERTY = 'C11'
 LEVEL = 'exploration'
-RULE = ('generated: batches of 1-6 abstract methods as in C10 incl. branches to offset 0, if whose target is its fall-through, goto to itself (goto/32 +0), duplicate switch targets, empty switches, two switches sharing one payload, and (every 4th method, every 4th target there) if/goto/switch-case targets outside the method: before offset 0, exactly at the end, beyond the end, +-0x7fff, +-0x7fffffff (labels oob:*); never targets inside the method that are not instruction starts; shipped: as in C10. non-trivial = the method has a conditional branch and (a switch or a backward edge); distinct = (code bytes, tries)')
+RULE = ('generated: batches of 1-6 abstract methods as in C10 incl. branches to offset 0, if whose target is its fall-through, goto to itself (goto/32 +0), duplicate switch targets, empty switches, two switches sharing one payload, and (every 4th method, every 4th target there) if/goto/switch-case targets outside the method: before offset 0, exactly at the end, beyond the end, +-0x7fff, +-0x7fffffff (labels oob:*); never targets inside the method that are not instruction starts; shipped: as in C10. non-trivial = the method has a conditional branch and (a switch or a backward edge); distinct = (code bytes, tries); histories (share of the cases, label history:*): 1/4 of the generated batches and every shipped DEX <= 100 kB analyse the SAME parsed DEX object again (second Analysis(d), one more MethodAnalysis(d, m)) and apply the oracle to the blocks of that later analysis; another 1/4 of the generated batches re-assemble each try-free method in another layout (1-4 nops in front, a payload moved), install its disassembly with EncodedMethod.set_instructions() and judge a new MethodAnalysis against the model of the new layout')
 ASSUMPTIONS = [
     'vf/gen/dalvik_spec.py, vf/gen/asm.py, vf/gen/dexgen.py and vf/gen/cfggen.py produce well-formed code items (typed from the Dalvik/DEX specifications; the length table tiles every shipped code item)',
     'reference semantics in vf/model/cfg.py: branch and switch-target offsets are relative to the branching instruction (code units), switch falls through, goto/return*/throw do not; a try covers the instructions whose address lies in [start_addr, start_addr+insn_count)',
